@@ -262,6 +262,15 @@ func (g *gen) step() bool {
 	case 2, 3: // declare from a variable / element / property (copy)
 		if p, ok := pickPath("src", nil); ok {
 			n := g.name()
+			if len(colls) > 0 && g.pick(4, "chained") == 0 {
+				// chained: 令A = B = X gives B a copy of X and A a copy of its own
+				if t := colls[g.pick(len(colls), "chain-tgt")]; !g.consts[t] {
+					add(&zn.Let{Names: []string{n}, E: &zn.Assign{Target: v(t), E: p.expr}})
+					g.copied[n], g.copied[t] = p.root, p.root
+					g.labels["chained-declaration"] = true
+					break
+				}
+			}
 			konst := g.pick(3, "const") == 0
 			add(&zn.Let{Names: []string{n}, E: p.expr, Const: konst})
 			g.copied[n] = p.root
